@@ -6,6 +6,9 @@ from ..ob import Result, mval
 from .. import lib
 
 
+LABEL_NF = 'a table file that cannot be opened (whatever the error kind - a missing file included) is reported as "key not found": the read falls through to older tables and a superseded value or a deleted key comes back'
+
+
 def o13_5_table_cache(mir, tier):
     """The cache is a map from file number to table by contract; the file name handler maps a number to the path of that number, the
     file system opens the file of a path, Table::open reads the table of that file (each free to fail).  find_table(n1) then
@@ -54,7 +57,7 @@ def o13_5_table_cache(mir, tier):
         P[r'<Arc<dyn FileSystem> as Deref>::deref'] = lib.ident; P[r'<PathBuf as Deref>::deref'] = lib.ident
         def open_file(se, env, pc, fs, path):
             st = dict(env['$state']); i = st['call']; st['opens'] = st['opens'] + [val(se, env, path)['path_of_table']]
-            return [(okf[i], Enum('Ok', ({'file_of_table': val(se, env, path)['path_of_table']},)), st), (Not(okf[i]), Enum('Err', ({'kind': 'io', '__ty': 'io::Error'},)), st)]
+            return [(okf[i], Enum('Ok', ({'file_of_table': val(se, env, path)['path_of_table']},)), st), (Not(okf[i]), Enum('Err', ({'kind': BitVec('open_error_kind_%d' % i, 8), '__ty': 'io::Error'},)), st)]          # any error kind (NotFound among them)
         P[r'<dyn FileSystem as FileSystem>::open_file'] = open_file
         P[r'<DbOptions as Clone>::clone'] = lib.ident
         def topen(se, env, pc, o, f):
@@ -76,6 +79,9 @@ def o13_5_table_cache(mir, tier):
                     if ok2: posts.append(('find_table returns the table of another file than the one asked for', r2.fields[0]['table_of'] == n2))
                     posts.append(('the first lookup of a table does not open its file / reports success although the open failed', BoolVal(len(opens) >= 1) if True else BoolVal(True)))
                     posts.append(('a lookup succeeds although the file could not be opened or parsed (or fails although it could)', And(BoolVal(ok1) == And(okf[0], okt[0]))))
+                    for r_ in (r1, r2):
+                        nf = isinstance(r_, Enum) and r_.tag == 'Err' and isinstance(r_.fields[0], Enum) and r_.fields[0].tag == 'KeyNotFound'
+                        posts.append((LABEL_NF, BoolVal(not nf)))
                     # second lookup: served from the cache iff the first succeeded, the number is the same and nothing was removed
                     hit = And(BoolVal(ok1 and not removed), n1 == n2)
                     opened_again = len(opens) == 2
@@ -83,7 +89,8 @@ def o13_5_table_cache(mir, tier):
                     if opened_again: posts.append(('the second lookup opens another file than the one asked for', opens[1] == n2))
                     res.cases['removed=%s first=%s second=%s opens=%d' % (removed, 'Ok' if ok1 else 'Err', 'Ok' if ok2 else 'Err', len(opens))] = 1
                     for label, post, m in ex.check_posts(posts, pc2):
-                        res.violations.append({'label': label, 'removed': removed, 'model': {'n1': mval(m, n1), 'n2': mval(m, n2)}, 'replay': ['table_cache', str(mval(m, n1)), str(mval(m, n2)), '1' if removed else '0']})
+                        res.violations.append({'label': label, 'removed': removed, 'model': {'n1': mval(m, n1), 'n2': mval(m, n2)},
+                                               'replay': ['get_unopenable_newest', 'notfound'] if label == LABEL_NF else ['table_cache', str(mval(m, n1)), str(mval(m, n2)), '1' if removed else '0']})
                 ex.run_fn(fn, [Ref('$tc'), n2], e, pcx, second)
             if removed: ex.run_fn(rm, [Ref('$tc'), n1], env1, pc1, lambda r, e2, p2: second_call(e2, p2))
             else: second_call(env1, pc1)
